@@ -287,7 +287,10 @@ def run_converter_case(ctx, rng, idx):
     dst_cls = make_dataclass(f"D{next(_n)}", [(i, int) for i in ids])
     cname_s, cname_d = pick(rng, CLASS_NAMES, USED["class_names"], 2)
     fname = pick(rng, FUNC_NAMES, USED["func_names"], 1)[0]
-    which = rng.choice(["class-names", "func-name", "stub-name", "field-ids-only", "link-function"])
+    which = rng.choice(["class-names", "func-name", "stub-name", "field-ids-only", "link-function", "same-named-nested", "typeddict-keyword-dst", "link-function-name-pair", "hostile-constant"])
+    if which in ("same-named-nested", "typeddict-keyword-dst", "link-function-name-pair", "hostile-constant"):
+        ctx.count(f"converter_{which}")
+        return run_converter_special(ctx, rng, which, ids)
     ctx.count(f"converter_{which}")
     desc = {"ids": [i[:40] for i in ids], "which": which, "class_names": [cname_s, cname_d] if which == "class-names" else None, "func_name": fname if which in ("func-name", "stub-name") else None}
     if which == "class-names":
@@ -337,6 +340,82 @@ def run_converter_case(ctx, rng, idx):
         leaked = CG.constants_outside_strings(src, [t for t in TRACKED if t in cname_s + cname_d + fname])
         if leaked and which in ("class-names", "func-name", "stub-name"):
             ctx.violation("hostile-name-outside-string-constant", f"{fnm}: {leaked} occurs outside string constants / comments", {"source": src[-2000:]})
+
+
+HOSTILE_CONSTANTS = ["two\nlines", "a\r\nb", "  indented\n    more\n", "'" * 3, '"' * 3, "back\\slash\\", "{braces} $dollar %s", f"');open('{C}','w');('", " sep", "tab\t", ("t\nu", 1), ["l\ni"],
+                     {"k\n": "v\n"}]
+
+
+def run_converter_special(ctx, rng, which, ids):  # noqa: C901
+    """Converter shapes where names of different generated entities meet: same-named nested models, keyword TypedDict keys as
+    destination parameters, linked functions whose names collide with the generator's global prefix, constants with line breaks."""
+    desc = {"which": which, "ids": [i[:40] for i in ids]}
+    CG.drain()
+    if which == "same-named-nested":
+        nm = rng.choice(["M", "Model", "coercer", "data", "convert"])
+        si = _rename(make_dataclass("SI", [(i, int) for i in ids]), nm)
+        di = _rename(make_dataclass("DI", [(i, int) for i in ids]), nm)
+        s_ = _rename(make_dataclass("S", [("inner", si), ("plain", int)]), nm)
+        d_ = _rename(make_dataclass("D", [("inner", di), ("plain", int)]), nm)
+        made = attempt(get_converter, s_, d_)
+        src = s_(si(**{i: k for k, i in enumerate(ids)}), 5)
+
+        def check(o):
+            return type(o) is d_ and type(o.inner) is di and o.plain == 5 and all(getattr(o.inner, i) == k for k, i in enumerate(ids))
+        desc["name"] = nm
+    elif which == "typeddict-keyword-dst":
+        keys = rng.sample(keyword.kwlist, 2) + [ids[0]]
+        ts = typing.TypedDict(f"TS{next(_n)}", {k: int for k in keys})
+        td = typing.TypedDict(f"TD{next(_n)}", {k: int for k in keys})
+        made = attempt(get_converter, ts, td)
+        src = {k: i for i, k in enumerate(keys)}
+
+        def check(o):
+            return o == src
+        desc["keys"] = keys
+    elif which == "link-function-name-pair":
+        base = rng.choice(["foo", "data", "coercer", "constant", ids[0]])
+        s_ = make_dataclass("S", [("a", int)])
+        d_ = make_dataclass("D", [("a", int), ("y", int), ("z", int)])
+
+        def f1(m, /):
+            return 1
+
+        def f2(m, /):
+            return 2
+        _rename(f1, base)
+        _rename(f2, rng.choice(["g_", "dfl_", "f_", "loader_"]) + base)
+        made = attempt(get_converter, s_, d_, recipe=[link_function(f1, "y"), link_function(f2, "z")])
+        src = s_(0)
+
+        def check(o):
+            return (o.a, o.y, o.z) == (0, 1, 2)
+        desc["names"] = [f1.__name__, f2.__name__]
+    else:
+        from adaptix.conversion import link_constant  # noqa: PLC0415
+
+        const = rng.choice(HOSTILE_CONSTANTS)
+        s_ = make_dataclass("S", [("a", int)])
+        d_ = make_dataclass("D", [("a", int), ("c", typing.Any)])
+        made = attempt(get_converter, s_, d_, recipe=[link_constant("c", value=const)])
+        src = s_(0)
+
+        def check(o):
+            return o.a == 0 and strict_eq(o.c, const)
+        desc["constant"] = repr(const)
+    ctx.evaluated(("converter-special", which, repr(desc)), nontrivial=True)
+    ctx.count("programs")
+    if made.kind != "ok":
+        cause = getattr(made.exc, "__cause__", None)
+        ctx.violation(f"generation-failed:converter:{type(cause).__name__ if cause is not None else type(made.exc).__name__}:{which}", f"converter generation failed ({desc}): {made.exc!r} cause={cause!r:.200}", desc)
+        return
+    with AU.armed():
+        out = attempt(made.value, src)
+    if AU.EVENTS:
+        ctx.violation(f"audit-canary:{AU.EVENTS[0][0]}", f"{AU.EVENTS[:3]}", desc)
+        AU.EVENTS.clear()
+    if out.kind != "ok" or not check(out.value):
+        ctx.violation(f"converter-misbehaves:{type(out.exc).__name__ if out.kind != 'ok' else 'wrong-result'}:{which}", f"converter ({desc}) gave {out!r:.300}", desc)
 
 
 def _name_class(*names):
